@@ -213,6 +213,12 @@ def e_UnaryOp(self, n, st):
         if isinstance(n.op, ast.USub):
             r.nonneg = False
             r.ex = (-nv.ex) if nv.ex is not None else None
+            r.neg = not nv.neg
+            r.base_uid = nv.base_uid if nv.base_uid is not None else nv.uid
+            if isinstance(v, Num) and v.seg is not None:
+                from . import segmap
+                r.seg = segmap.scale(v.seg, -1)
+                r.segax = v.segax
         return r
     return TopV('unary', taint_of(v))
 
@@ -1246,6 +1252,17 @@ def index_value(self, v, idx, node):
         out.extend(shape[ax:])
         r = nv.copy(shape=tuple(out), taint=t)
         r.ex = None
+        r.col0, r.src_uid = None, None
+        if len(shape) == 2 and len(idxs) == 2 and isinstance(idxs[0], SliceV) and idxs[0].lo is None and idxs[0].hi is None \
+                and idxs[0].step is None and isinstance(v, Num):
+            from .prims import _int_aff
+            c = idxs[1]
+            if isinstance(c, SliceV) and c.hi is None and c.step is None:
+                r.col0 = _int_aff(c.lo) if c.lo is not None else Aff(0)
+                r.src_uid = v.uid
+            elif _asint(c) is not None and _asint(c).a is not None:
+                r.col0 = _asint(c).a
+                r.src_uid = v.uid
         if self.d4 and len(shape) == 1 and len(idxs) == 1:
             from . import charge as Q
             from . import segmap
